@@ -138,3 +138,95 @@ def analyse(h, mop, ref, pattern, path, norm, *, want=("verdict",)):
         if len(addrs) != len(texts):
             problems.append(("addr", f"{len(texts)} addresses", addrs))
     return problems, rfound
+
+
+# ----------------------------------------------------------------------------- generic family runner
+
+class RuleCase:
+    """One rule to explore: pattern, which listing set, which flag configs, which clauses."""
+    __slots__ = ("family", "pattern", "lset", "cfgs", "want", "extra")
+
+    def __init__(self, family, pattern, lset="main", cfgs=((False, False),), want=("verdict",), extra=None):
+        self.family, self.pattern, self.lset, self.cfgs, self.want, self.extra = family, pattern, lset, cfgs, tuple(want), extra
+
+
+_LSETS: dict = {}
+
+
+def get_lsets(h, tier, builder):
+    """builder(h, tier) -> {name: ListingSet}; cached per worker process / scratch root."""
+    key = (h.root, tier, builder.__module__)
+    if key not in _LSETS:
+        _LSETS.clear()
+        _LSETS[key] = builder(h, tier)
+    return _LSETS[key]
+
+
+def first_item_matches_somewhere(ref, pattern, norm):
+    if not pattern:
+        return False
+    for i in range(len(norm)):
+        for _ in ref.inst1(pattern[0], norm, i, {}):
+            return True
+    return False
+
+
+def run_rules(h, res, known, rules, lsets, shard, *, prop, macros=None, doc_extra=None):
+    """Explore rules[shard.lo::shard.n] x their listing sets x configs against the reference."""
+    from mc.common import flags_config, make_rule_doc
+    for ri in range(shard["lo"], len(rules), shard["n"]):
+        rc = rules[ri]
+        ls = lsets[rc.lset]
+        for cfg in rc.cfgs:
+            config = flags_config(*cfg)
+            doc = make_rule_doc(rc.pattern, config)
+            if doc_extra:
+                doc.update(doc_extra)
+            try:
+                mop = h.mop(doc, macros=macros)
+            except Exception as e:  # a valid rule must compile
+                res.evaluations += 1
+                res.fail({"clause": "compile", "rule": doc, "listing": [], "family": rc.family,
+                          "expected": "compiles", "observed": repr(e), "size": len(str(rc.pattern))}, known)
+                continue
+            ref = rm.Ref(*cfg)
+            for idx, path, norm, att in ls:
+                res.evaluations += 1
+                problems, rfound = analyse(h, mop, ref, rc.pattern, path, norm, want=rc.want)
+                if rfound:
+                    res.nontrivial += 1
+                    res.count("found")
+                else:
+                    res.count("notfound")
+                    if first_item_matches_somewhere(ref, rc.pattern, norm):
+                        res.nontrivial += 1
+                for clause, exp, obs in problems:
+                    c = {"rule": doc, "listing": [[a, m, list(o)] for a, m, o in att], "family": rc.family,
+                         "clause": clause, "expected": exp, "observed": obs,
+                         "size": len(att) * 10 + len(str(rc.pattern))}
+                    res.fail(c, known)
+        if len(res.samples) < 2 and len(ls) > 1:
+            res.samples.append({"family": rc.family, "rule": make_rule_doc(rc.pattern, flags_config(*rc.cfgs[-1])),
+                                "listing": [[a, m, list(o)] for a, m, o in ls.items[(ri * 7 + 3) % len(ls)][3]]})
+
+
+def replay_case(case, h, want=("verdict",)):
+    """Generic replay of a case produced by run_rules."""
+    doc = case["rule"]
+    cfgd = doc.get("config", {}) or {}
+    cfg = (bool(cfgd.get("mnemonics-full-match")), bool(cfgd.get("operands-full-match")))
+    att = [(a, m, list(o)) for a, m, o in case["listing"]]
+    norm = [norm_inst(*x) for x in att]
+    try:
+        mop = h.mop(doc, macros=case.get("macros"))
+    except Exception as e:
+        return case.get("clause") == "compile", f"compile raised {e!r}"
+    problems, rfound = analyse(h, mop, rm.Ref(*cfg), doc["pattern"], h.listing_file(fmt_listing(att)), norm,
+                               want=tuple(case.get("want") or want))
+    problems = [p for p in problems if p[0] == case.get("clause")] or problems
+    return bool(problems), f"reference found={rfound}; problems={problems}"
+
+
+def std_shards(tier, quick=64, thorough=256):
+    n = quick if tier == "quick" else thorough
+    return [{"lo": i, "n": n} for i in range(n)]
